@@ -4,7 +4,9 @@ import AsynqModel.Proofs.Tools
 # C14  Collection helpers equal their built-in counterparts, in one batching round
 
 Theorems about the model `AsynqModel.Tools` of asynq/tools.py, for EVERY element type, input list, iterable kind
-and async key / predicate function (`Env`).  The right-hand sides are core `List` functions only
+(list, tuple, one-shot iterator, any other re-iterable container), async key / predicate function (`Env`), kind of
+function OBJECT (`FnObj.fn truthy eqNone`: whatever `bool(f)` and `f == None` answer) and kind of retried body
+(`BodyKind`: runs when scheduled / runs eagerly inside `fn.asynq(..)`).  The right-hand sides are core `List` functions only
 (`List.map`, `List.filter`, `List.mergeSort` - a stable sort -, `List.find?`/`List.all`, `List.partition`).
 -/
 namespace AsynqModel.Tools
@@ -19,10 +21,11 @@ theorem C14_amap (s : Src α) (h : s.kind ≠ .nonIter) :
   obtain ⟨kind, items⟩ := s
   cases kind <;> simp_all [amap, amapCore, Src.iterate]
 
-/-- afilter = `List.filter` with the predicate; with function `None` = filter on the elements' own truthiness -/
-theorem C14_afilter (s : Src α) (h : s.kind ≠ .nonIter) :
-    (afilter env false s).res = .ok (.elems (List.filter env.pred s.items)) ∧
-    (afilter env true s).res = .ok (.elems (List.filter env.truthy s.items)) := by
+/-- afilter = `List.filter` with the predicate, whatever truth value the predicate OBJECT has; with function
+    `None` (and only then) = filter on the elements' own truthiness -/
+theorem C14_afilter (t e : Bool) (s : Src α) (h : s.kind ≠ .nonIter) :
+    (afilter env (.fn t e) s).res = .ok (.elems (List.filter env.pred s.items)) ∧
+    (afilter env .none s).res = .ok (.elems (List.filter env.truthy s.items)) := by
   obtain ⟨kind, items⟩ := s
   cases kind <;> simp_all [afilter, Src.iterate, compress_map]
 
@@ -34,23 +37,24 @@ theorem C14_afilterfalse (s : Src α) (h : s.kind ≠ .nonIter) :
 
 /-- asorted with a key = THE stable sort by that key (`List.mergeSort` on the key order); `reverse=True` is the
     stable sort by descending key (equal keys keep their input order, they are not reversed) -/
-theorem C14_asorted_stable (rev : Bool) (s : Src α) (h : s.kind ≠ .nonIter) :
-    (asorted env false rev s).res =
+theorem C14_asorted_stable (t e : Bool) (rev : Bool) (s : Src α) (h : s.kind ≠ .nonIter) :
+    (asorted env (.fn t e) rev s).res =
       .ok (.elems (s.items.mergeSort fun a b => if rev then env.key b ≤ env.key a else env.key a ≤ env.key b)) := by
   change _ = Res.ok (.elems (stableSort env.key rev s.items))
   obtain ⟨kind, items⟩ := s
-  cases kind <;> simp only [asorted, amapCore, Src.iterate, sortedPairs_eq, Bool.false_eq_true, if_false] <;> simp at h
+  cases kind <;> simp only [asorted, amapCore, Src.iterate, sortedPairs_eq, Bool.false_eq_true, if_false,
+    FnObj.isNone_fn] <;> simp at h
 
 /-- asorted without key: TypeError exactly when two or more values are compared and one is not orderable,
     otherwise the stable sort by the values' own order -/
 theorem C14_asorted_nokey (rev : Bool) (s : Src α) (h : s.kind ≠ .nonIter) :
-    (asorted env true rev s).res =
+    (asorted env .none rev s).res =
       if unorderable env s.items then .raised .typeError
       else .ok (.elems (s.items.mergeSort fun a b =>
         if rev then selfKey env b ≤ selfKey env a else selfKey env a ≤ selfKey env b)) := by
   change _ = if unorderable env s.items then _ else Res.ok (.elems (stableSort (selfKey env) rev s.items))
   obtain ⟨kind, items⟩ := s
-  cases kind <;> simp only [asorted, Src.iterate, selfKeys_eq, if_true] <;>
+  cases kind <;> simp only [asorted, Src.iterate, selfKeys_eq, if_true, FnObj.isNone_none] <;>
     first
     | (simp at h; done)
     | (cases unorderable env items <;> simp [sortedPairs_eq])
@@ -67,41 +71,43 @@ theorem C14_firstExt_is_first (k : α → Int) (xs : List α) (m : α) (h : firs
     rw [h] at heq hp hq
     exact ⟨p, q, by simpa using heq, hp, hq⟩
 
-/-- amax / amin with a key, given one iterable of any kind: the first maximum / minimum (enumerate-based
-    tie-break = first extreme wins); ValueError on an empty input, after the (empty) round of key calls -/
-theorem C14_amax_amin_first (isMin : Bool) (s : Src α) (h : s.kind ≠ .nonIter) :
-    (amaxmin env isMin false false (.one s)).res =
+/-- amax / amin with a key (an async function object of ANY truth value), given one iterable of any kind: the
+    first maximum / minimum (enumerate-based tie-break = first extreme wins); ValueError on an empty input, after
+    the (empty) round of key calls -/
+theorem C14_amax_amin_first (isMin t e : Bool) (s : Src α) (h : s.kind ≠ .nonIter) :
+    (amaxmin env isMin false (.fn t e) (.one s)).res =
       match firstExt isMin env.key s.items with
       | some m => .ok (.elem m)
       | none => .raised .valueError := by
   obtain ⟨kind, items⟩ := s
-  cases kind <;> simp only [amaxmin, maxIterable, amapCore, Src.iterate, Bool.false_eq_true, if_false] <;>
+  cases kind <;> simp only [amaxmin, maxIterable, amapCore, Src.iterate, Bool.false_eq_true, if_false,
+      FnObj.isNone_fn] <;>
     first
     | (simp at h; done)
     | (rcases pyExt_enumerate_cases isMin env.key items with ⟨h1, h2⟩ | ⟨p, h1, h2⟩ <;> simp only [h1, h2])
 
-theorem C14_amax_first (s : Src α) (h : s.kind ≠ .nonIter) :
-    (amaxmin env false false false (.one s)).res =
+theorem C14_amax_first (t e : Bool) (s : Src α) (h : s.kind ≠ .nonIter) :
+    (amaxmin env false false (.fn t e) (.one s)).res =
       match s.items.find? (fun x => s.items.all fun y => env.key y ≤ env.key x) with
       | some m => .ok (.elem m)
       | none => .raised .valueError := by
-  simpa [firstExt] using C14_amax_amin_first env false s h
+  simpa [firstExt] using C14_amax_amin_first env false t e s h
 
-theorem C14_amin_first (s : Src α) (h : s.kind ≠ .nonIter) :
-    (amaxmin env true false false (.one s)).res =
+theorem C14_amin_first (t e : Bool) (s : Src α) (h : s.kind ≠ .nonIter) :
+    (amaxmin env true false (.fn t e) (.one s)).res =
       match s.items.find? (fun x => s.items.all fun y => env.key x ≤ env.key y) with
       | some m => .ok (.elem m)
       | none => .raised .valueError := by
-  simpa [firstExt] using C14_amax_amin_first env true s h
+  simpa [firstExt] using C14_amax_amin_first env true t e s h
 
 /-- positional form `amax(a, b, c, ..)` (two or more arguments) = the single-iterable form on the tuple -/
-theorem C14_amax_varargs (isMin keyNone : Bool) (a b : α) (xs : List α) :
+theorem C14_amax_varargs (isMin : Bool) (keyNone : FnObj) (a b : α) (xs : List α) :
     amaxmin env isMin false keyNone (.elems (a :: b :: xs)) = amaxmin env isMin false keyNone (.one ⟨.tuple, a :: b :: xs⟩) :=
   amaxmin_varargs env isMin keyNone a b xs
 
 /-- the error cases: unexpected keyword, no argument, one non-iterable argument -> TypeError (before anything
     is called); empty iterable -> ValueError -/
-theorem C14_amax_errors (isMin keyNone : Bool) (args : MaxArgs α) (x : α) (s : Src α) (h : s.kind ≠ .nonIter)
+theorem C14_amax_errors (isMin : Bool) (keyNone : FnObj) (args : MaxArgs α) (x : α) (s : Src α) (h : s.kind ≠ .nonIter)
     (he : s.items = []) :
     amaxmin env isMin true keyNone args = ⟨.raised .typeError, [], 0⟩ ∧
     amaxmin env isMin false keyNone (.elems []) = ⟨.raised .typeError, [], 0⟩ ∧
@@ -124,32 +130,90 @@ theorem C14_asift (s : Src α) (h : s.kind ≠ .nonIter) :
 /-! ## aretry -/
 
 /-- the body runs exactly `min (k+1) max_tries` times when the first `k` attempts raise a listed exception
-    (`k` = `leadingListed`, counted up to `max_tries`), it sleeps between two attempts only -/
+    (`k` = `leadingListed`, counted up to `max_tries`), it sleeps between two attempts only - for a body that
+    runs when its task is scheduled AND for one that runs (and raises) eagerly inside `fn.asynq(..)` -/
 theorem C14_aretry_count (maxTries : Nat) (hm : 0 < maxTries) (listed : List Nat) (script : List Attempt)
-    (blocking : Bool) :
-    let r : Run α := aretry maxTries listed script blocking
+    (blocking : Bool) (kind : BodyKind) :
+    let r : Run α := aretry maxTries listed script blocking kind
     let n := min (leadingListed listed (scriptAt script) maxTries 0 + 1) maxTries
     totalRuns r.rounds = n ∧ r.rounds.length = n ∧ r.sleeps = n - 1 := by
-  have := retryLoop_spec (α := α) listed (scriptAt script) maxTries blocking maxTries 0 hm (by omega)
-  simp only [aretry, Nat.ne_of_gt hm, if_false, this, totalRuns_replicate, List.length_replicate]
+  have := retryLoop_spec (α := α) listed (scriptAt script) maxTries blocking kind maxTries 0 hm (by omega)
+  have hn : 0 < min (leadingListed listed (scriptAt script) maxTries 0 + 1) maxTries := by omega
+  simp only [aretry, Nat.ne_of_gt hm, if_false, this, totalRuns_retryRounds _ _ _ _ hn,
+    length_retryRounds _ _ _ _ hn]
   simp
 
 /-- its outcome is the outcome of the last attempt that ran: the value returned, an exception that is not
     listed (propagated immediately, no further attempt), or the listed exception of attempt `max_tries` -/
 theorem C14_aretry_result (maxTries : Nat) (hm : 0 < maxTries) (listed : List Nat) (script : List Attempt)
-    (blocking : Bool) :
-    (aretry (α := α) maxTries listed script blocking).res =
+    (blocking : Bool) (kind : BodyKind) :
+    (aretry (α := α) maxTries listed script blocking kind).res =
       attemptRes (scriptAt script) (min (leadingListed listed (scriptAt script) maxTries 0 + 1) maxTries - 1) := by
-  have := retryLoop_spec (α := α) listed (scriptAt script) maxTries blocking maxTries 0 hm (by omega)
+  have := retryLoop_spec (α := α) listed (scriptAt script) maxTries blocking kind maxTries 0 hm (by omega)
   simp only [aretry, Nat.ne_of_gt hm, if_false, this]
   simp
 
 /-- an exception that is not listed stops the loop at once: if attempt `k` (after `k` listed failures) raises
     an unlisted class, exactly `k+1` attempts ran and that exception is the outcome -/
 theorem C14_aretry_unlisted_immediately (listed : List Nat) (script : Nat → Attempt) (maxTries : Nat) (blocking : Bool)
-    (todo i cls : Nat) (hs : script i = .raise cls) (hl : isListed listed cls = false) :
-    retryLoop (α := α) listed script maxTries blocking (todo + 1) i = ⟨.raised (.user cls i), [[blocking]], 0⟩ := by
+    (kind : BodyKind) (todo i cls : Nat) (hs : script i = .raise cls) (hl : isListed listed cls = false) :
+    retryLoop (α := α) listed script maxTries blocking kind (todo + 1) i =
+      ⟨.raised (.user cls i), [[attemptBlocks kind blocking (.raise cls)]], 0⟩ := by
   simp [retryLoop, hs, hl]
+
+/-- the KIND of the retried body does not matter for what aretry does: same outcome, same number of runs of the
+    body, same sleeps, whether the body raises when its task is scheduled or already inside `fn.asynq(..)` -/
+theorem C14_aretry_body_kind (maxTries : Nat) (listed : List Nat) (script : List Attempt) (b b' : Bool) :
+    let l : Run α := aretry maxTries listed script b .lazy
+    let e : Run α := aretry maxTries listed script b' .eager
+    e.res = l.res ∧ totalRuns e.rounds = totalRuns l.rounds ∧ e.sleeps = l.sleeps := by
+  by_cases hm : maxTries = 0
+  · subst hm; simp [aretry]
+  · have hl := retryLoop_spec (α := α) listed (scriptAt script) maxTries b .lazy maxTries 0 (by omega) (by omega)
+    have he := retryLoop_spec (α := α) listed (scriptAt script) maxTries b' .eager maxTries 0 (by omega) (by omega)
+    have hn : 0 < min (leadingListed listed (scriptAt script) maxTries 0 + 1) maxTries := by omega
+    simp only [aretry, hm, if_false, hl, he, totalRuns_retryRounds _ _ _ _ hn]
+    simp
+
+/-- the flushes of the retried body: a body that blocks when scheduled flushes once per attempt; an eager body
+    flushes once, for the batch item of the attempt that returned (none if the last attempt raised) -/
+theorem C14_aretry_flushes (maxTries : Nat) (hm : 0 < maxTries) (listed : List Nat) (script : List Attempt)
+    (blocking : Bool) :
+    let n := min (leadingListed listed (scriptAt script) maxTries 0 + 1) maxTries
+    (observe (aretry (α := α) maxTries listed script blocking .lazy)).flushes
+        = (if blocking then List.replicate n 1 else []) ∧
+    (observe (aretry (α := α) maxTries listed script blocking .eager)).flushes
+        = (match scriptAt script (n - 1) with
+           | .ret _ => if blocking then [1] else []
+           | .raise _ => []) := by
+  have hl := retryLoop_spec (α := α) listed (scriptAt script) maxTries blocking .lazy maxTries 0 hm (by omega)
+  have he := retryLoop_spec (α := α) listed (scriptAt script) maxTries blocking .eager maxTries 0 hm (by omega)
+  have hn : 0 < min (leadingListed listed (scriptAt script) maxTries 0 + 1) maxTries := by omega
+  simp only [aretry, Nat.ne_of_gt hm, if_false, hl, he, observe, flushSizes_retryRounds,
+    retryFlushes_lazy _ _ _ hn]
+  refine ⟨by simp, ?_⟩
+  simp only [Nat.zero_add]
+  cases scriptAt script (min (leadingListed listed (scriptAt script) maxTries 0 + 1) maxTries - 1) <;>
+    cases blocking <;> simp [retryFlushes, attemptBlocks]
+
+/-! ## the function object -/
+
+/-- the key / predicate OBJECT is only ever asked `is None`: an async function object that is falsy (a callable
+    memo table with `__len__`, `__bool__`) or claims to equal `None` is treated exactly like any other function -/
+theorem C14_fn_object_irrelevant (t e : Bool) (isMin badKw rev : Bool) (s : Src α) (args : MaxArgs α) :
+    afilter env (.fn t e) s = afilter env (.fn true false) s ∧
+    asorted env (.fn t e) rev s = asorted env (.fn true false) rev s ∧
+    amaxmin env isMin badKw (.fn t e) args = amaxmin env isMin badKw (.fn true false) args := by
+  refine ⟨?_, ?_, ?_⟩ <;> simp [afilter, asorted, amaxmin]
+
+/-- in particular a FALSY key is still a key: all per-element key calls are made, in one round -/
+theorem C14_falsy_key_is_called (isMin e : Bool) (s : Src α) (h : s.kind ≠ .nonIter) :
+    (amaxmin env isMin false (.fn false e) (.one s)).rounds = [s.items.map env.blocks] := by
+  obtain ⟨kind, items⟩ := s
+  cases kind <;> simp [amaxmin, maxIterable, amapCore, Src.iterate] <;>
+    first
+    | (simp at h; done)
+    | ((repeat' split) <;> simp)
 
 /-! ## one round -/
 
@@ -204,7 +268,7 @@ theorem C14_spec_holds (c : Call α) : observe (run env c) = expected env c := b
   | asorted kn rev s => exact asorted_obs env kn rev s
   | amaxmin isMin badKw kn args => exact amaxmin_obs env isMin badKw kn args
   | asift s => exact asift_obs env s
-  | aretry m l sc b => exact aretry_obs env m l sc b
+  | aretry m l sc b k => exact aretry_obs env m l sc b k
 
 /-- the same, through the Boolean observer the check evaluates on the implementation's observations -/
 theorem C14_spec_true [DecidableEq α] (c : Call α) : spec env c (observe (run env c)) = true := by
@@ -217,24 +281,38 @@ section examples
 def exEnv : Env Nat := ⟨fun x => x / 10, fun x => x % 2 == 1, fun x => x != 0, fun x => some x, fun _ => true⟩
 
 -- equal keys keep their order, also with reverse (21 before 25, 11 before 13)
-example : (asorted exEnv false true ⟨.iterator, [11, 25, 13, 21]⟩).res = .ok (.elems [25, 21, 11, 13]) := by decide
+example : (asorted exEnv (.fn true false) true ⟨.iterator, [11, 25, 13, 21]⟩).res = .ok (.elems [25, 21, 11, 13]) := by decide
 -- ... which is NOT the reversed ascending sort (seeded mutation C14-1)
 example : (pySorted exEnv.key false [11, 25, 13, 21]).reverse ≠ pySorted exEnv.key true [11, 25, 13, 21] := by decide
 -- first maximum / first minimum among ties
-example : (amaxmin exEnv false false false (.elems [11, 25, 13, 21])).res = .ok (.elem 25) := by decide
-example : (amaxmin exEnv true false false (.one ⟨.iterator, [25, 11, 13, 21]⟩)).res = .ok (.elem 11) := by decide
+example : (amaxmin exEnv false false (.fn true false) (.elems [11, 25, 13, 21])).res = .ok (.elem 25) := by decide
+example : (amaxmin exEnv true false (.fn true false) (.one ⟨.iterator, [25, 11, 13, 21]⟩)).res = .ok (.elem 11) := by decide
 -- one round, one flush of four items
-example : (observe (run exEnv (.asorted false false ⟨.list, [11, 25, 13, 21]⟩))).flushes = [4] := by decide
+example : (observe (run exEnv (.asorted (.fn true false) false ⟨.list, [11, 25, 13, 21]⟩))).flushes = [4] := by decide
 -- the observer is not trivially true: two flushes for one invocation are rejected, so is a wrong tie-break
 example : spec exEnv (.amap ⟨.list, [11, 25]⟩) ⟨.ok (.vals [1, 2]), [1, 1], 2, 0⟩ = false := by decide
-example : spec exEnv (.amaxmin false false false (.elems [11, 13])) ⟨.ok (.elem 13), [2], 2, 0⟩ = false := by decide
+example : spec exEnv (.amaxmin false false (.fn true false) (.elems [11, 13])) ⟨.ok (.elem 13), [2], 2, 0⟩ = false := by decide
 -- aretry: two listed failures then a value, max_tries 5 -> 3 runs; max_tries 2 -> 2 runs and the error
-example : observe (aretry (α := Nat) 5 [1] [.raise 1, .raise 4, .ret 9] false) = ⟨.ok (.val 9), [], 3, 2⟩ := by decide
-example : observe (aretry (α := Nat) 2 [1] [.raise 1, .raise 4, .ret 9] true) = ⟨.raised (.user 4 1), [1, 1], 2, 1⟩ := by
+example : observe (aretry (α := Nat) 5 [1] [.raise 1, .raise 4, .ret 9] false .lazy) = ⟨.ok (.val 9), [], 3, 2⟩ := by decide
+example : observe (aretry (α := Nat) 2 [1] [.raise 1, .raise 4, .ret 9] true .lazy) = ⟨.raised (.user 4 1), [1, 1], 2, 1⟩ := by
   decide
 -- an unlisted exception is not retried
-example : observe (aretry (α := Nat) 5 [1] [.raise 1, .raise 2, .ret 9] false) = ⟨.raised (.user 2 1), [], 2, 1⟩ := by
+example : observe (aretry (α := Nat) 5 [1] [.raise 1, .raise 2, .ret 9] false .lazy) = ⟨.raised (.user 2 1), [], 2, 1⟩ := by
   decide
+-- a FALSY key object is a key: amax by the tens digit, not `max` of the values (seeded mutation C14-6), and the
+-- observer rejects the natural-order answer that makes no key call
+example : (amaxmin exEnv false false (.fn false false) (.one ⟨.list, [31, 47, 12, 28]⟩)).res = .ok (.elem 47) := by decide
+example : spec exEnv (.amaxmin false false (.fn false false) (.one ⟨.list, [39, 41]⟩)) ⟨.ok (.elem 41), [2], 2, 0⟩ = true := by
+  decide
+example : spec exEnv (.amaxmin false false (.fn false false) (.one ⟨.list, [41, 39]⟩)) ⟨.ok (.elem 41), [], 0, 0⟩ = false := by
+  decide
+-- a re-iterable container that is neither list nor tuple
+example : (observe (run exEnv (.amaxmin true false (.fn true true) (.one ⟨.reiter, [25, 11, 13]⟩)))) = ⟨.ok (.elem 11), [3], 3, 0⟩ := by
+  decide
+-- an EAGER body: one listed failure then a value -> 2 runs, one flush (the batch item of the good attempt); the
+-- observer rejects the single run of a retry loop that lets the eager failure escape (seeded mutation C14-7)
+example : observe (aretry (α := Nat) 3 [1] [.raise 1, .ret 9] true .eager) = ⟨.ok (.val 9), [1], 2, 1⟩ := by decide
+example : spec exEnv (.aretry 3 [1] [.raise 1, .ret 9] true .eager) ⟨.raised (.user 1 0), [], 1, 0⟩ = false := by decide
 end examples
 
 end AsynqModel.Tools
